@@ -7,6 +7,7 @@
  */
 
 #include "log_rules.h"
+#include "verif_hooks.h"
 
 #include "unc_tools.h"
 
@@ -14,6 +15,7 @@
 void log_rule2(const char *func, size_t line, const char *rule, Chunk *first, Chunk *second)
 {
    LOG_FUNC_ENTRY();
+   VERIF_SPACE_RULE(rule);
 
    if (second->IsNot(CT_NEWLINE))
    {
